@@ -119,6 +119,26 @@ def crafted_instances():
     out.append(('pwm_zero_from_start', {'elems': gearpair, 'load': ld(c0=F(1, 1000)), 'ctrls': [[const(0, F(7, 200), 0)]], 'stops': [], 'ops': sched(8, ctrl=0)}))
     out.append(('pwm_zero_from_start_sl', {'elems': sl, 'load': ld(c0=F(1, 1000)), 'ctrls': [[const(0, F(7, 200), 0)]], 'stops': [],
                                            'ops': sched(8, ctrl=0, more=[{'op': 'reset'}, {'op': 'set_initial', 'pos': F(0), 'spd': F(0)}])}))
+    # relations declared back to front (the chain is the same): wheel drives a worm that already drives its follower
+    wheel_m = {'kind': 'WormWheel', 'J': F(1, 10**5), 'teeth': 40, 'helix_deg': F(5), 'alpha_deg': F(20), 'module': F(1, 1000), 'b': F(1, 100),
+               'rel': {'type': 'joint', 'arg': None}}
+    worm_s = {'kind': 'WormGear', 'J': F(1, 10**7), 'teeth': 2, 'helix_deg': F(5), 'alpha_deg': F(20), 'rel': {'type': 'worm', 'arg': F(1, 50)}}
+    worm_s_d = dict(worm_s, dref=F(1, 50))
+    for nm, w in (('backwards_no_dref', worm_s), ('backwards_dref', worm_s_d)):
+        out.append((nm, {'elems': [motor, wheel_m, w, out_gear], 'load': ld(c0=F(1, 100000)), 'ctrls': [], 'stops': [], 'decl_order': [3, 2, 1], 'ops': sched(4)}))
+        out.append((nm + '_fwd', {'elems': [motor, wheel_m, w, out_gear], 'load': ld(c0=F(1, 100000)), 'ctrls': [], 'stops': [], 'ops': sched(4)}))
+    # a design revision: the output gear was first meshed with another gear, then put on a fixed joint
+    out.append(('superseded_mating', {'elems': [motor, {'kind': 'SpurGear', 'J': F(1, 10**6), 'teeth': 21, 'rel': {'type': 'joint', 'arg': None}},
+                                                 {'kind': 'SpurGear', 'J': F(1, 10**5), 'teeth': 30, 'rel': {'type': 'gear', 'arg': F(4, 5)}}],
+                                      'load': ld(c0=F(1, 1000)), 'ctrls': [], 'stops': [], 'pre_declare': [1], 'ops': sched(5)}))
+    # an efficiency sweep on a live model: mating re-declared after the Solver exists, and again after reset
+    sweep = sched(4)
+    sweep.insert(2, {'op': 'redeclare', 'i': 2, 'arg': F(19, 25)})
+    sweep += [{'op': 'reset'}, {'op': 'set_initial', 'pos': F(0), 'spd': F(0)}, {'op': 'redeclare', 'i': 2, 'arg': F(3, 5)},
+              {'op': 'run', 'sid': 1, 'dt': dt, 'T': dt * 4, 'dt_unit': 'sec', 'T_unit': 'sec'}]
+    out.append(('efficiency_sweep', {'elems': [motor, {'kind': 'SpurGear', 'J': F(1, 10**6), 'teeth': 10, 'rel': {'type': 'joint', 'arg': None}},
+                                                {'kind': 'SpurGear', 'J': F(1, 10**5), 'teeth': 30, 'rel': {'type': 'gear', 'arg': F(4, 5)}}],
+                                     'load': ld(c0=F(1, 1000)), 'ctrls': [], 'stops': [], 'ops': sweep}))
     # the same loads on the non-self-locking stage and on a motor without current data: never clamped
     out.append(('free_overload', {'elems': [motor, worm, wheel_free, out_gear], 'load': ld(c0=5), 'ctrls': [[const(F(5, 200), 1, 0)]], 'stops': [], 'ops': sched(8, spd0=-3, ctrl=0)}))
     out.append(('nocurrent_locked', {'elems': [motor_nc, worm, wheel], 'load': ld(c0=5), 'ctrls': [[const(F(3, 200), F(3, 100), 0)]], 'stops': [], 'ops': sched(10, ctrl=0)}))
@@ -195,9 +215,10 @@ def _exact_traces():
 
 def _crafted_traces():
     import_repo()
+    import copy
     out = []
     for name, inst in crafted_instances():
-        tr = solver_rec.execute('crafted_' + name, inst, None)
+        tr = solver_rec.execute('crafted_' + name, copy.deepcopy(inst), None)
         tr['family'] = 'crafted'
         tr['presentation'] = 'SI'
         out.append(tr)
